@@ -140,11 +140,6 @@ def gen_run_cases(rng, count):
         if rng.random() < 0.5:
             w = rng.choice([2, 2, 3, 4, 5, 8])
         ns = 0 if rng.random() < 0.15 else 1
-        if s == 4 and w >= 2:
-            # FINDING F-C17-1 (FINDINGS_C17.md): colored strategy + a job without scatter + >= 2 workers deadlocks
-            # (the master's colour loop waits for fences that `_work_no_scatter` never opens); avoided here so that
-            # the check stays green on the unchanged tree
-            ns = 1
         ncb = rng.randrange(2)
         reps = rng.choice([1, 1, 1, 2, 3])
         pseed = 0 if rng.random() < 0.1 else rng.randrange(1, 1 << 30)
@@ -171,6 +166,10 @@ CORPUS_DIST = [
                         list(range(27))),
 ]
 CORPUS_RUN = [
+    # F-C17-1 (fixed in /repo, 19866811e): colored + job without scatter + >= 2 workers used to deadlock
+    "run 4 3 9 8 2 0 1 2 1 2 2 2 3 2 3 4 2 4 5 2 5 6 2 6 7 2 7 8 8 0 1 2 3 4 5 6 7 0 1 1 5",
+    "run " + path_input(4, 2, 14) + " 0 1 2 183796311",
+    "run " + path_input(4, 6, 9, [1, 3, 5, 7]) + " 0 0 1 576524399",
     "run " + path_input(2, 1, 1) + " 1 1 2 7",
     "run " + path_input(2, 2, 5) + " 1 1 2 7",
     "run " + path_input(3, 1, 6) + " 1 1 1 7",
@@ -353,6 +352,23 @@ def scan_events(cells, evs):
     return None, overlapped
 
 
+def blocked_waits(evs):
+    """number of fence waits (hook H2 log) that began before the fence was opened"""
+    pending = {}
+    n = 0
+    for kind, t, a in evs:
+        if kind == 10:
+            pending[(t, a)] = False
+        elif kind == 0:
+            for key in pending:
+                if key[1] == a and key[0] != t:
+                    pending[key] = True
+        elif kind == 1:
+            if pending.pop((t, a), False):
+                n += 1
+    return n
+
+
 def oracle_trace(case, out):
     try:
         (s, w, nvt, cells, sel), ns, ncb, reps, pseed, impl = parse_trace(case)
@@ -439,6 +455,8 @@ def describe_trace(case):
             keys.append("hooks:%d" % runs[0][4] if runs else "hooks:?")
             if any(scan_events(cells, r[5])[1] for r in runs):
                 keys.append("two-scatters-overlapped-in-time")
+            if any(blocked_waits(r[5]) for r in runs):
+                keys.append("fence-wait-blocked")
         return keys
     except Exception:
         return ["unparsable"]
@@ -525,6 +543,7 @@ def main(argv):
         "semantics not modelled; ThreadSanitizer observes the real ones in the thorough tier)",
         "termination needs weak fairness of the scheduler (not modelled; observed: no run timed out)",
         "tasks do not throw (the okay=false error path of the fences is not modelled)",
-        "without hook H2 in /repo the fence events are not logged: the validator takes the fence transitions of the model "
-        "eagerly between the logged scatter/combine events"],
+        "hook H2 (kernel/util/thread.hpp, guard FEAT_VERIF_HOOKS) logs every fence open / wait return / close, so the "
+        "whole log is replayed step by step; if the hook were absent the validator would take the fence transitions of "
+        "the model eagerly between the logged scatter/combine events"],
         extra_cov={"rule": rule})
